@@ -90,13 +90,20 @@ def handle_events(sol_tuple, events, consts, direction, is_terminal, attributes)
     # t_next = t_next + 0.001*t_diff
     ev_f = []
 
+    def __as_scalar(__g):
+        # an event function written as `y - c` for a one-component state returns an array of shape (1,): left like that,
+        # the per-event masks below broadcast against each other and select the wrong events
+        if len(D.ar_numpy.shape(__g)) > 0:
+            __g = D.ar_numpy.reshape(__g, ())
+        return __g
+
     def __get_ev_f(__ev, __rds):
         if __rds:
             def __local_ev_f(t):
-                return __ev(t, sol(t), sol.grad(t), **consts)
+                return __as_scalar(__ev(t, sol(t), sol.grad(t), **consts))
         else:
             def __local_ev_f(t):
-                return __ev(t, sol(t), **consts)
+                return __as_scalar(__ev(t, sol(t), **consts))
         return __local_ev_f
 
     for ev, rds in zip(events, requires_dstate):
